@@ -20,6 +20,8 @@ TInit == Init /\ tid \in 1..Len(Traces) /\ l = 1 /\ TLCSet(tid, 0)
 IsW(th) == th \in Workers
 FinalClass == IF Dest = "path" THEN "IORenameFileTask" ELSE "CompleteDownloadNOOPTask"
 WriteClass == IF NS THEN "IOStreamingWriteTask" ELSE "IOWriteTask"
+GetClass == IF Single THEN "ImmediatelyWriteIOGetObjectTask" ELSE "GetObjectTask"
+IsA(th) == th \in Actors
 
 Step(e) ==
     CASE e.k = "Call" -> UserCall
@@ -39,7 +41,7 @@ Step(e) ==
                             ELSE AnnCbBegin(e.th)
       [] e.k = "CbEnd" -> IF e.cb = "queued" THEN e.th = "sub" /\ SubOnQueuedEnd(e.ok)
                           ELSE AnnCbEnd(e.th)
-      [] e.k = "Submit" -> e.th = "sub" /\ SubSubmit /\ e.task = "GetObjectTask"
+      [] e.k = "Submit" -> e.th = "sub" /\ SubSubmit /\ e.task = GetClass
                            /\ e.inflight = ReqInFlight + 1
       [] e.k = "IoSubmit" ->
             /\ e.inflight = ioinfl + 1
@@ -47,7 +49,7 @@ Step(e) ==
                THEN IF e.th = "sub" THEN SubFinalSubmit ELSE IsW(e.th) /\ WFinalSubmit(e.th)
                ELSE /\ e.task = WriteClass /\ IsW(e.th)
                     /\ IF NS THEN WDeferFlush(e.th) ELSE WIoSubmit(e.th)
-      [] e.k = "TaskBegin" -> IsW(e.th) /\ WTake(e.th) /\ e.task = "GetObjectTask"
+      [] e.k = "TaskBegin" -> IsW(e.th) /\ WTake(e.th) /\ e.task = GetClass
       [] e.k = "TaskEnd" -> IsW(e.th) /\ WTaskEnd(e.th)
       [] e.k = "IoTaskBegin" -> /\ e.th = IOW /\ IOTake
                                 /\ e.task = (IF Head(ioq).k = "final" THEN FinalClass ELSE WriteClass)
@@ -61,20 +63,21 @@ Step(e) ==
                  /\ WGetEnd(e.th, IF e.oc = "ok" THEN "ok" ELSE "fault")
       [] e.k = "BodyRead" -> IsW(e.th) /\ (IF e.data THEN WReadData(e.th) ELSE WReadEOF(e.th))
       [] e.k = "BodyFault" -> IsW(e.th) /\ WReadFault(e.th, e.retryable)
-      [] e.k = "SetResult" -> e.th = IOW /\ IOSetResult /\ status' = e.st
+      [] e.k = "SetResult" -> IsA(e.th) /\ IOSetResult(e.th) /\ status' = e.st
       [] e.k = "SetExc" -> /\ (IF e.th = "sub" THEN SubFail
-                               ELSE IF e.th = IOW THEN IOExc ELSE IsW(e.th) /\ WExc(e.th))
+                               ELSE IF e.th = IOW THEN IOExc(IOW)
+                               ELSE IsW(e.th) /\ (WExc(e.th) \/ IOExc(e.th)))
                            /\ status' = e.st
       [] e.k = "AnnBegin" -> AnnBegin(e.th) /\ status = e.st
       [] e.k = "AnnEnd" -> AnnEnd(e.th)
-      [] e.k = "FsOpen" -> e.th = IOW /\ IOOpen
-      [] e.k = "FsWriteBegin" -> e.th = IOW /\ IOWriteBegin /\ iocur.part = e.part
-      [] e.k = "FsWriteEnd" -> e.th = IOW /\ IOWriteEnd(e.ok)
-      [] e.k = "FsClose" -> IF e.th = IOW /\ iopc = "close" THEN IOClose /\ fopen
+      [] e.k = "FsOpen" -> IsA(e.th) /\ IOOpen(e.th)
+      [] e.k = "FsWriteBegin" -> IsA(e.th) /\ IOWriteBegin(e.th) /\ iocur[e.th].part = e.part
+      [] e.k = "FsWriteEnd" -> IsA(e.th) /\ IOWriteEnd(e.th, e.ok)
+      [] e.k = "FsClose" -> IF IsA(e.th) /\ iopc[e.th] = "close" THEN IOClose(e.th) /\ fopen
                             ELSE AnnClose(e.th) /\ fopen
-      [] e.k = "FsRenameBegin" -> e.th = IOW /\ IORenameBegin
-      [] e.k = "FsRenameFault" -> e.th = IOW /\ IORenameFault
-      [] e.k = "FsRename" -> e.th = IOW /\ IORenameEnd
+      [] e.k = "FsRenameBegin" -> IsA(e.th) /\ IORenameBegin(e.th)
+      [] e.k = "FsRenameFault" -> IsA(e.th) /\ IORenameFault(e.th)
+      [] e.k = "FsRename" -> IsA(e.th) /\ IORenameEnd(e.th)
       [] e.k = "FsRemove" -> AnnRemove(e.th) /\ (e.ok <=> temp)
       [] OTHER -> FALSE
 
@@ -82,8 +85,9 @@ Silent ==
     \/ SubCheck \/ SubSetup \/ SubFinalize \/ SubFailWait \/ SubFailDone
     \/ \E w \in Workers : WCheck(w) \/ WHand(w) \/ WDecr(w) \/ WFinish(w) \/ WRelease(w)
                           \/ WDeferLock(w) \/ WDeferUnlock(w)
-    \/ IOCheck \/ IOFin \/ IOAnnounced \/ IOFinish \/ IORelease
-    \/ (~fopen /\ IOClose)
+    \/ IOFinish \/ IORelease
+    \/ \E a \in Actors : IOCheck(a) \/ IOFin(a) \/ IOAnnounced(a) \/ (~fopen /\ IOClose(a))
+    \/ \E w \in Workers : WDeferTakeInline(w) \/ WFinalInline(w) \/ IOInlineReturn(w)
     \/ \E th \in Threads : AnnCleanups(th) \/ AnnEvent(th) \/ AnnCbLock(th) \/ (~fopen /\ AnnClose(th))
 
 TNext ==
